@@ -313,6 +313,45 @@ def oracle_tree(tokens, spell_of):
     return expr(0)
 
 
+REWRITE = "nsl/passes/RewriteAssignEqualOperations.py"
+
+
+def check_rewrite_shape(model, col, rule):
+    """`x op= e` is rewritten to `x = x op e` with e as ONE operand (the right-hand side of an assignment extends
+    over the whole following expression): every AssignmentExpression the pass builds has that shape."""
+    from ..sem import local_env, resolve
+
+    rv = model.cls(REWRITE, "RewriteAssignEqualVisitor")
+    h = rv.own_method("v_AssignmentExpression")
+    env = local_env(h, allow_impure=True)
+    np_ = h.args.args[1].arg
+    news = [c for c in ast.walk(h) if isinstance(c, ast.Call) and last_attr(c) == "AssignmentExpression"]
+    results = []
+    details = []
+    for c in news:
+        c2 = resolve(c, env)
+        if len(c2.args) < 2 or not (isinstance(c2.args[1], ast.Call) and last_attr(c2.args[1]) == "BinaryExpression"):
+            results.append(False)
+            details.append(" ".join(unparse(c2).split())[:120])
+            continue
+        b = c2.args[1]
+        tl = unparse(c2.args[0])
+        bl = unparse(b.args[1]) if len(b.args) > 2 else ""
+        br = unparse(b.args[2]) if len(b.args) > 2 else ""
+
+        def is_side(t, getter):
+            # <node>.GetLeft() possibly wrapped in a visit call:  self.v_Visit(<node>.GetLeft(), ctx)
+            return f"{np_}.{getter}()" in t and "BinaryExpression" not in t
+
+        ok = is_side(tl, "GetLeft") and is_side(bl, "GetLeft") and is_side(br, "GetRight") and not c2.keywords
+        results.append(ok)
+        details.append(f"AssignmentExpression({tl}, BinaryExpression(op, {bl}, {br}))")
+    good = bool(results) and all(results)
+    detail = "; ".join(details) or "no AssignmentExpression constructed"
+    col.check(good, rule, f"{REWRITE}::v_AssignmentExpression rewrite shape", detail[:200] + "  (x = x op y, plain ASSIGN)",
+              f"rewrite is {detail[:300]}; expected AssignmentExpression(left, BinaryExpression(op, left, right)) with a plain assignment and the whole right-hand side as one operand", REWRITE, h)
+
+
 def run(model, col, tier):
     G = Grammar(model)
     kinds = classify(G, model)
@@ -427,6 +466,42 @@ def run(model, col, tier):
     order = unparse(sm)
     col.check(0 <= order.find("GetLeft") < order.find("OpToStr") < order.rfind("GetRight"), "R08.5", "nsl/ast/__init__.py::BinaryExpression.__str__ order",
               "prints left operand, operator, right operand", "does not print left, operator, right in that order", "nsl/ast/__init__.py", sm)
+    check_rewrite_shape(model, col, "R08.6")
+    # no other expression printer is transparent: a printer that returns just str(child) hides a nested binary expression
+    # from the isinstance test above (the operand then prints without parentheses)
+    ebase = model.cls("nsl/ast/__init__.py", "Expression")
+    nprinters = 0
+    for ci in model.classes.values():
+        if ci.file != "nsl/ast/__init__.py" or ebase not in ci.mro or ci is be or "__str__" not in ci.methods:
+            continue
+        pm_ = ci.methods["__str__"]
+        nprinters += 1
+        child_getters = {mn for mn, mm in ci.methods.items() for r in ast.walk(mm) if isinstance(r, ast.Return) and r.value is not None and "children" in unparse(r.value)}
+
+        def is_child(e):
+            t_ = unparse(e)
+            return "children" in t_ or any(f".{g}()" in t_ for g in child_getters)
+
+        def bare(e):
+            """the expression renders exactly one child and nothing else"""
+            if isinstance(e, ast.Call) and dotted(e.func) == "str" and len(e.args) == 1:
+                return is_child(e.args[0]) or bare(e.args[0])
+            if isinstance(e, ast.JoinedStr):
+                parts = [v for v in e.values if not (isinstance(v, ast.Constant) and v.value == "")]
+                return len(parts) == 1 and isinstance(parts[0], ast.FormattedValue) and (is_child(parts[0].value) or bare(parts[0].value))
+            if isinstance(e, ast.Call) and isinstance(e.func, ast.Attribute) and e.func.attr == "format" and isinstance(e.func.value, ast.Constant) and isinstance(e.func.value.value, str):
+                import re as _re
+
+                return bool(_re.fullmatch(r"\{[0-9]*\}", e.func.value.value)) and len(e.args) == 1 and (is_child(e.args[0]) or bare(e.args[0]))
+            if isinstance(e, ast.Call) and isinstance(e.func, ast.Attribute) and e.func.attr in ("__str__", "__repr__") and not e.args:
+                return is_child(e.func.value)
+            return False
+
+        transparent = [r for r in ast.walk(pm_) if isinstance(r, ast.Return) and r.value is not None and bare(r.value)]
+        col.check(not transparent, "R08.5", f"nsl/ast/__init__.py::{ci.name}.__str__ delimits its operand", "the printer adds text of its own around its operand",
+                  f"`{unparse(transparent[0])[:60] if transparent else ''}` prints the operand and nothing else: a binary expression wrapped in a {ci.name} is not recognised by BinaryExpression.__str__ "
+                  "and is printed without parentheses, so `a * (b + c)` prints as `a * b + c`", "nsl/ast/__init__.py", transparent[0] if transparent else pm_)
+    col.floor("R08.5", "expression printers", nprinters, 6)
     sto = model.fold(model.module_assign("nsl/op.py", "_op_str_map"))
     inv = model.module_assign("nsl/op.py", "_str_op_map")
     col.check(isinstance(inv, ast.DictComp) and unparse(inv.key) == "v" and unparse(inv.value) == "k", "R08.5", "nsl/op.py::_str_op_map is the inverse of _op_str_map",
